@@ -26,6 +26,10 @@ Definition mem_alloc (st : Z * list Z) (n c : Z) : res ((Z * list Z) * gcslice) 
   if (n <? 0)%Z then Panic 7
   else Ok ((fst st + 1, snd st), Some (repeat (Z.to_N (160 + fst st mod 16)) (Z.to_nat (Z.max n c)), n)).
 Definition mem_free (st : Z * list Z) (s : gcslice) : res (Z * list Z) := Ok (fst st, (snd st ++ [gcs_cap s])%list).
+(* ext.Dirty(n, c): n bytes 238, capacity exactly c (the rest of the backing array is zero); panics unless 0 <= n <= c *)
+Definition mem_dirty (st : Z * list Z) (n c : Z) : res ((Z * list Z) * gcslice) :=
+  if ((n <? 0) || (c <? n))%bool then Panic 7
+  else Ok (st, Some ((repeat 238%N (Z.to_nat n) ++ repeat 0%N (Z.to_nat (c - n)))%list, n)).
 `
 
 type feed struct {
@@ -196,6 +200,17 @@ func phase4() {
 			r := c.CDrop()
 			return tup(cstate(c), memSt(), z(int64(r)))
 		})
+		for _, n := range []int{-1, 0, 2, 5} {
+			for _, kk := range []int{-1, 0, 3, 5, 9} {
+				n, kk := n, kk
+				ex(fmt.Sprintf("g_sem_CDirty %s %s mem_dirty mem_alloc false %s %s %s (4, [])", RD, MEM, in, z(int64(n)), z(int64(kk))), func() string {
+					ext.Allocs, ext.Freed = 4, nil
+					c := k.mk()
+					r := c.CDirty(n, kk)
+					return tup(cstate(c), memSt(), z(int64(r)))
+				})
+			}
+		}
 		for _, n := range []int{0, 1, 2, 5, 9} {
 			n := n
 			ex(fmt.Sprintf("g_sem_CFillN %s feed_read 50 false %s %s", RD, in, z(int64(n))), func() string {
